@@ -78,6 +78,17 @@ def check(pid, tier, seed):
                     lines += [step_line(g, ei, kind) for ei in path]
                     lines.append("E")
                     meta[xid] = (path, ty)
+        # long random walks over the same graph (one Observable object through 15-60 operations): what an object carries over
+        # from earlier operations -- a cached comparison, a remembered subscriber list -- is not visible to an edge cover
+        import random as _random
+        wr = _random.Random("obs-walk-%s-%s" % (seed, cfg))
+        for wi, (init, path) in enumerate(pathcover.random_walks(g, wr, {"quick": 60, "thorough": 3000}[tier], 15, 60)):
+            ty = types[wi % len(types)]
+            xid = "%s-w%d-%s" % (cfg, wi, ty)
+            lines.append("X %s type=%s init=%s" % (xid, ty, enc(kind, g.states[init]["val"])))
+            lines += [step_line(g, ei, kind) for ei in path]
+            lines.append("E")
+            meta[xid] = (path, ty)
         tot_states += len(g.states)
         tot_edges += len(g.edges)
         tot_cov += len(covered)
